@@ -109,6 +109,10 @@ class Plain(ntypes.Immutable):
     def __init__(self, a, b=0): pass
 class Plain2(ntypes.Immutable):
     def __init__(self, a, b=0): pass
+class PlainKW(ntypes.Immutable):
+    def __init__(self, a, *rest, **options): pass
+class SingleKW(ntypes.Singleton):
+    def __init__(self, a, **options): pass
 def _mk_same_named():
     class Plain(ntypes.Immutable):
         def __init__(self, a, b=0): pass
@@ -291,6 +295,12 @@ def stability_checks():
         nonlocal n; n += 1
         if not cond: bad.append(label)
     chk('kw vs positional', ntypes.nutils_hash(Plain(1, 2)) == ntypes.nutils_hash(Plain(b=2, a=1)) == ntypes.nutils_hash(Plain(1, b=2)))
+    # extra keywords collected by **kwargs keep call-site order unless canonicalised
+    chk('order of extra keyword arguments (Immutable)', ntypes.nutils_hash(PlainKW(1, x=2, y=3)) == ntypes.nutils_hash(PlainKW(1, y=3, x=2)) and PlainKW(1, x=2, y=3) == PlainKW(1, y=3, x=2) and hash(PlainKW(1, x=2, y=3)) == hash(PlainKW(1, y=3, x=2)))
+    chk('order of extra keyword arguments (recorded pre-images identical)', record(PlainKW(1, x=2, y=3, z='q')).key() == record(PlainKW(1, z='q', y=3, x=2)).key())
+    chk('order of extra keyword arguments (Singleton identity)', SingleKW(1, x=2, y=3) is SingleKW(1, y=3, x=2))
+    chk('pickle round trip of keyword-built Immutable', pickle.loads(pickle.dumps(PlainKW(1, y=3, x=2))) == PlainKW(1, x=2, y=3))
+    chk('positional rest vs keywords differ', ntypes.nutils_hash(PlainKW(1, 2, 3)) != ntypes.nutils_hash(PlainKW(1, x=2, y=3)))
     chk('default argument', ntypes.nutils_hash(Plain(1)) == ntypes.nutils_hash(Plain(1, 0)))
     chk('arraydata int32/int64', ntypes.nutils_hash(ntypes.arraydata(numpy.array([1, 2, 3], dtype=numpy.int32))) == ntypes.nutils_hash(ntypes.arraydata(numpy.array([1, 2, 3], dtype=numpy.int64))))
     chk('numpy scalar vs python', ntypes.nutils_hash(numpy.int64(5)) == ntypes.nutils_hash(5) and ntypes.nutils_hash(numpy.float64(.5)) == ntypes.nutils_hash(.5) and ntypes.nutils_hash(numpy.bool_(True)) == ntypes.nutils_hash(True))
@@ -320,7 +330,10 @@ def main(argv=None):
     if args.replay:
         import json
         d = json.load(open(args.replay))['replay']
-        if d['kind'] == 'collision': ok, detail = replay_collision(d['a'], d['b'], d['model'])
+        if d['kind'] == 'views':
+            from checks import c17_views
+            ok, detail = c17_views.replay(d['case'])
+        elif d['kind'] == 'collision': ok, detail = replay_collision(d['a'], d['b'], d['model'])
         else: n, bad = stability_checks(); ok, detail = d['label'] in bad, str(bad)
         print('REPRODUCED' if ok else 'not reproduced', detail); return 1 if ok else 0
     run = harness.Run(PID, 'other', args,
@@ -366,6 +379,23 @@ def main(argv=None):
             ok, detail = replay_collision(na, nb, out['model'])
             if ok: run.violation(f'collision:{out["pair"]}', f'hash encoding is not injective: {detail}', dict(kind='collision', a=na, b=nb, model=out['model']))
             else: run.unconfirmed(out['pair'], f'encoding collision model {out["model"]} did not reproduce with the real SHA-1 ({detail})')
+    # arrays: hash is a function of the array value whatever the memory layout, and injective in it (symbolic strided views, real nutils_hash)
+    if not args.only or args.only == 'views':
+        from checks import c17_views
+        nv = 0
+        for o in c17_views.obligations(args.tier):
+            obligations += o['unsat'] + o['unknown'] + len(o['sat']); discharged += o['unsat']; nv += o['unsat']
+            run.case(o['label'], o['unsat'] > 0); run.paths += o['paths']
+            run.queries['exact_unsat'] += o['unsat']; run.queries['unknown'] += o['unknown']; run.queries['sat'] += len(o['sat'])
+            run.sample(dict(obligation=o['label'], paths=o['paths'], proved=o['unsat']), limit=30)
+            if o['errors'] or not o['exhaustive'] or o['unknown']: run.unconfirmed(o['label'], f'not exhaustive / unknown: {o["errors"][:2]}')
+            for c in o['sat']:
+                ok, detail = c17_views.replay(c)
+                if ok: run.violation(f'views:{c["kind"]}:{o["label"]}', f'nutils_hash of an ndarray: {detail}'[:500], dict(kind='views', case=c)); break
+                else: run.unconfirmed(o['label'], f'{c["kind"]} model did not reproduce ({detail})')
+        if nv == 0: run.harness_error('array-view obligations: nothing was proved (vacuous)')
+        run.stubs.append('nutils.types.numpy -> proxy whose ndarray is a symbolic strided-view class; ndarray.tobytes(order) modelled after numpy\'s documented semantics')
+        run.bounds['array_views'] = 'shapes %s, strides multiples of 8 in [-64,64], non-overlapping, element types <f8/<i8' % c17_views.SHAPES
     # vacuity twin: a deliberately ambiguous encoding (raw concatenation of two int reprs) must be sat
     x1, y1, x2, y2 = z3.Strings('x1 y1 x2 y2'); s = z3.Solver()
     s.add(*[z3.InRe(v, INTRE) for v in (x1, y1, x2, y2)], z3.Concat(x1, y1) == z3.Concat(x2, y2), x1 != x2, z3.Length(x1) <= 4, z3.Length(x2) <= 4, z3.Length(y1) <= 4, z3.Length(y2) <= 4)
